@@ -310,7 +310,14 @@ func (t *table) startWALProcessing(walOffset wal.Offset) error {
 	}
 	verifReadInit(t, walOffset)
 
-	go t.processWALInserts()
+	// register the insert-processing task before returning: started from the
+	// reader goroutine it could be added to the database's task group while
+	// Close is already waiting on it (sync: WaitGroup is reused ...)
+	in := make(chan *walRead)
+	t.db.Go(func(stop <-chan interface{}) {
+		t.processInserts(in, stop)
+	})
+	go t.processWALInserts(in)
 	return nil
 }
 
